@@ -3,13 +3,16 @@
 package main
 
 import (
+	"context"
 	"encoding/json"
 	"fmt"
 	mrand "math/rand"
 	"sort"
 	"strings"
+	"time"
 
 	mail "github.com/wneessen/go-mail"
+	"github.com/wneessen/go-mail/smtp"
 
 	"verif/internal/ev"
 	"verif/internal/gen"
@@ -384,6 +387,89 @@ func runC05Case(r *ev.Run, c c05Case) {
 	r.Eval(fmt.Sprintf("%+v", c), true)
 }
 
+// c05DirectCase: the smtp package used directly. Hello is called with the name (it may refuse it); whatever it
+// returned, the caller carries on with Mail/Rcpt/Quit - or Noop / Extension - on the same smtp.Client.
+type c05DirectCase struct {
+	HELO   string `json:"helo"`
+	Then   string `json:"then"` // mail | noop | extension | quit
+	Direct bool   `json:"direct_smtp_client"`
+}
+
+func runC05Direct(r *ev.Run, c c05DirectCase) {
+	viol := func(key, what string, obs any) {
+		r.Violate(ev.Violation{Key: key, What: what, Case: c, Observed: obs})
+	}
+	farm := &refsmtp.Farm{NewConfig: func(int) *refsmtp.Config { return &refsmtp.Config{AllowUTF8: true} }}
+	defer farm.Shutdown()
+	conn, err := farm.Dial(context.Background(), "tcp", "")
+	if err != nil {
+		r.HarnessError(err.Error())
+		return
+	}
+	_ = conn.SetDeadline(time.Now().Add(10 * time.Second))
+	sc, err := smtp.NewClient(conn, netHost)
+	if err != nil {
+		r.HarnessError("smtp.NewClient: " + err.Error())
+		return
+	}
+	func() {
+		defer func() {
+			if p := recover(); p != nil {
+				viol("panic:direct", fmt.Sprintf("smtp.Client panicked: %v", p), nil)
+			}
+		}()
+		herr := sc.Hello(c.HELO)
+		if herr != nil {
+			r.Count("helo_refused_by_smtp_client", 1)
+		}
+		switch c.Then {
+		case "noop":
+			_ = sc.Noop()
+		case "extension":
+			_, _ = sc.Extension("8BITMIME")
+		case "quit":
+		default:
+			if sc.Mail("sender@example.com") == nil {
+				_ = sc.Rcpt("rcpt@example.net")
+			}
+		}
+		_ = sc.Quit()
+	}()
+	_ = conn.Close()
+	farm.Shutdown()
+	sess, _ := farm.Snapshot()
+	if len(sess) == 0 {
+		return
+	}
+	cmds, _, pv := sess[0].Snapshot()
+	r.Count("direct_smtp_client_sessions", 1)
+	for _, cr := range cmds {
+		r.Count("command_lines_parsed", 1)
+		if (cr.Verb == "EHLO" || cr.Verb == "HELO") && cr.Parsed != nil && cr.Parsed.Arg != c.HELO && cr.Parsed.Arg != "localhost" {
+			viol("helo-altered:direct", fmt.Sprintf("HELO name %q arrived as %q", c.HELO, cr.Parsed.Arg), cr.Line)
+		}
+	}
+	for _, v := range pv {
+		code, _, _ := strings.Cut(v, ": ")
+		switch code {
+		case "syntax", "param-syntax", "truncated-line":
+			// a single argument that is no valid domain is not smuggling (see the mail.Client cases)
+			single := false
+			for _, cr := range cmds {
+				if cr.SyntaxErr != "" && (cr.Verb == "EHLO" || cr.Verb == "HELO") {
+					arg := strings.TrimPrefix(cr.Line[min(4, len(cr.Line)):], " ")
+					single = arg != "" && !strings.ContainsAny(arg, " \t\r\n\x00")
+				}
+			}
+			if single {
+				continue
+			}
+			viol("malformed-line:direct:"+c.Then, "smtp.Client used directly (Hello, then "+c.Then+"): the reference server received a line that is not one well-formed command: "+v, linesOf(cmds))
+		}
+	}
+	r.Eval(fmt.Sprintf("direct|%q|%s", c.HELO, c.Then), true)
+}
+
 func localClass(mbox string) string {
 	i := strings.LastIndex(mbox, "@")
 	if i < 0 {
@@ -445,7 +531,7 @@ func sameSet(a, b string) bool {
 
 func runC05(r *ev.Run, rep *ev.ReplayDoc) ev.Summary {
 	sum := ev.Summary{
-		Rule: "addresses built from (local part, domain) pairs - dot-atoms and quoted-string local parts with blank, <, >, @, comma, ;, :, backslash, quote, UTF-8 and smuggling payloads such as 'a> NOTIFY=NEVER ORCPT=rfc822;x <b' - in four spellings and through the *Format setters, as From / EnvelopeFrom / To / Cc / Bcc (every local part in every role); HELO names with blanks, tabs, CR, LF, embedded commands, 600 characters; credentials with CR/LF/blanks/controls for PLAIN, LOGIN, CRAM-MD5, XOAUTH2, SCRAM; every DSN option set the typed setters accept or must reject; capability subsets. Every raw line received outside DATA is parsed with the strict RFC 5321 grammar. distinct by case",
+		Rule: "addresses built from (local part, domain) pairs - dot-atoms and quoted-string local parts with blank, <, >, @, comma, ;, :, backslash, quote, UTF-8 and smuggling payloads such as 'a> NOTIFY=NEVER ORCPT=rfc822;x <b' - in four spellings and through the *Format setters, as From / EnvelopeFrom / To / Cc / Bcc (every local part in every role); HELO names with blanks, tabs, CR, LF, embedded commands, 600 characters (through WithHELO, and through smtp.Client.Hello with the caller carrying on after a refusal); credentials with CR/LF/blanks/controls for PLAIN, LOGIN, CRAM-MD5, XOAUTH2, SCRAM; every DSN option set the typed setters accept or must reject; capability subsets. Every raw line received outside DATA is parsed with the strict RFC 5321 grammar. distinct by case",
 		Assumptions: []string{
 			"the intended mailbox is known by construction (local part + domain); a case whose address a setter rejected is only judged for line well-formedness",
 			"a stray '*' after a final AUTH reply is C04's known finding and not attributed to this property",
@@ -453,6 +539,11 @@ func runC05(r *ev.Run, rep *ev.ReplayDoc) ev.Summary {
 		Floors: []ev.Floor{{Counter: "evaluations", Min: 1000}, {Counter: "command_lines_parsed", Min: 5000}, {Counter: "paths_checked", Min: 2000}, {Counter: "kinds", Min: 4}},
 	}
 	if rep != nil {
+		var d c05DirectCase
+		if err := json.Unmarshal(rep.Case, &d); err == nil && d.Direct {
+			runC05Direct(r, d)
+			return sum
+		}
 		var c c05Case
 		if err := json.Unmarshal(rep.Case, &c); err != nil {
 			r.HarnessError("bad replay case: " + err.Error())
@@ -563,5 +654,13 @@ func runC05(r *ev.Run, rep *ev.ReplayDoc) ev.Summary {
 		}
 		runC05Case(r, cases[i])
 	})
+	// the smtp package used directly: Hello with every name, then the caller carries on
+	var dcases []c05DirectCase
+	for _, h := range c05HELOs {
+		for _, then := range []string{"mail", "noop", "extension", "quit"} {
+			dcases = append(dcases, c05DirectCase{HELO: h, Then: then, Direct: true})
+		}
+	}
+	r.Parallel(len(dcases), func(i int) { runC05Direct(r, dcases[i]) })
 	return sum
 }
